@@ -17,6 +17,8 @@ pub mod c16;
 pub mod c17;
 pub mod c18;
 pub mod c19;
+pub mod c20;
+pub mod c20b;
 
 /// A bounded space of cases with its oracle.
 pub trait Space: Sync {
@@ -102,6 +104,7 @@ pub fn run_check(id: &str, tier: &str) -> i32 {
         "C17" => c17::run(tier),
         "C18" => c18::run(tier),
         "C19" => c19::run(tier),
+        "C20" => c20::run(tier),
         _ => {
             eprintln!("MACHINERY-ERROR: unknown property {}", id);
             2
@@ -134,6 +137,7 @@ pub fn run_replay(path: &str) -> i32 {
         "C17" => c17::replay(&f),
         "C18" => c18::replay(&f),
         "C19" => c19::replay(&f),
+        "C20" => c20::replay(&f),
         _ => {
             eprintln!("MACHINERY-ERROR: unknown property {}", prop);
             2
